@@ -226,3 +226,18 @@ mod weibull;
 mod zeta;
 mod ziggurat_tables;
 mod zipf;
+
+/// Verification hooks (only with `--cfg rand_distr_verif`): read-only access
+/// to the private ziggurat tables, for external table-equation monitors.
+#[cfg(rand_distr_verif)]
+pub mod verif_hooks {
+    use crate::ziggurat_tables as zt;
+    /// `(R, X, F)` of the normal ziggurat.
+    pub fn zig_norm() -> (f64, &'static [f64; 257], &'static [f64; 257]) {
+        (zt::ZIG_NORM_R, &zt::ZIG_NORM_X, &zt::ZIG_NORM_F)
+    }
+    /// `(R, X, F)` of the exponential ziggurat.
+    pub fn zig_exp() -> (f64, &'static [f64; 257], &'static [f64; 257]) {
+        (zt::ZIG_EXP_R, &zt::ZIG_EXP_X, &zt::ZIG_EXP_F)
+    }
+}
